@@ -121,7 +121,12 @@ func TestZZBoundedConnWritev(t *testing.T) {
 	for i := range many {
 		many[i] = 1 + i%3
 	}
-	shapes = append(shapes, many, []int{70000, 0, 70000, 5}, []int{3, 200000, 1}, []int{150000, 150000, 150000})
+	// back-pressure with far more than IOV_MAX segments still unsent when the kernel says EAGAIN
+	huge := make([]int, 3000)
+	for i := range huge {
+		huge[i] = 1024
+	}
+	shapes = append(shapes, many, []int{70000, 0, 70000, 5}, []int{3, 200000, 1}, []int{150000, 150000, 150000}, huge)
 	for _, et := range []bool{false, true} {
 		for _, pending := range []int{0, 5, 300000} {
 			for _, s := range shapes {
